@@ -190,6 +190,8 @@ impl BufferManager {
             }
         }
 
+        #[cfg(grafeodb_grafeo_verif)]
+        crate::verif::yield_point("bm.region");
         self.region_allocated[region.index()].fetch_add(size, Ordering::Relaxed);
 
         // Check pressure and potentially trigger background eviction
@@ -289,12 +291,16 @@ impl BufferManager {
     /// concurrent callers each pass the check and together exceed the limit, so
     /// both happen in one compare-and-swap.
     fn try_reserve(&self, size: usize) -> bool {
+        #[cfg(grafeodb_grafeo_verif)]
+        crate::verif::yield_point("bm.load");
         let mut current = self.allocated.load(Ordering::Relaxed);
         loop {
             let new = match current.checked_add(size) {
                 Some(new) if new <= self.hard_limit => new,
                 _ => return false,
             };
+            #[cfg(grafeodb_grafeo_verif)]
+            crate::verif::yield_point("bm.cas");
             match self.allocated.compare_exchange_weak(
                 current,
                 new,
@@ -377,7 +383,11 @@ impl BufferManager {
 
 impl GrantReleaser for BufferManager {
     fn release(&self, size: usize, region: MemoryRegion) {
+        #[cfg(grafeodb_grafeo_verif)]
+        crate::verif::yield_point("bm.rel_total");
         self.allocated.fetch_sub(size, Ordering::Relaxed);
+        #[cfg(grafeodb_grafeo_verif)]
+        crate::verif::yield_point("bm.rel_region");
         self.region_allocated[region.index()].fetch_sub(size, Ordering::Relaxed);
     }
 
@@ -391,6 +401,8 @@ impl GrantReleaser for BufferManager {
             }
         }
 
+        #[cfg(grafeodb_grafeo_verif)]
+        crate::verif::yield_point("bm.region");
         self.region_allocated[region.index()].fetch_add(size, Ordering::Relaxed);
         true
     }
